@@ -97,7 +97,7 @@ func (v *VM) Func(fnc Value, xRets int, params ...Value) (rets []Value, err erro
 	vm := VM{
 		globals: v.globals,
 		stdout:  v.stdout,
-		stack:   append(params, fnc),
+		stack:   append(append(make([]Value, 0, len(params)+1), params...), fnc), // a stack of its own: params belongs to the caller
 		frame: frame{Codes: []instruction{{
 			Code: codeCall,
 			A:    reg(len(params)),
